@@ -450,10 +450,17 @@ def differential(ctx, stream, cases):
     n_unmod = 0
     for c, mo in zip(keep, mouts):
         ctx.evaluations += 1
-        r = common.call_impl(lambda: impl(c))
-        io = r[1] if r[0] == 'ok' else common.err(r[1])
+        c, lm = ctx.pick_labels(stream, c)
+        common.LABEL_MODE[0] = lm
+        try:
+            r = common.call_impl(lambda: impl(c))
+            io = r[1] if r[0] == 'ok' else common.err(r[1])
+            if r[0] != 'ok':
+                c = dict(c, _exc=r[2])
+            why = spec(c, io, mo)
+        finally:
+            common.LABEL_MODE[0] = 'std'
         ctx.dist['stream:' + stream] += 1
-        why = spec(c, io, mo)
         cls = c.get('_class')
         if cls:
             ctx.dist['class:' + cls] += 1
